@@ -20,10 +20,13 @@ CLAIMS = {
             "lemmas it rests on (C10 slider exactness, shifts without wrap-around, pawn attack sets). The property is decided by running the real "
             "generator (all entry points) against the extracted specification spec/Rules.v on generated positions of D (play-outs, suite FENs, "
             "Chess960/DFRC starts, pin/check/ep/castling/promotion templates): a test, not a proof.", "DESIGN.md section 6 C01", ""),
-    "C02": ("proof", "Coq proof of the null-move clause (abstraction to the 8x8 state); move clause stated; differential model/implementation/Rules.apply on every legal move of sampled positions",
-            "PARTIAL proof. Proved: a null move passes the turn, clears the ep target, keeps absolute placement and rights (for all positions with "
-            "disjoint colour boards). The move clause is stated and decided by the correspondence run (all fields, both key variants, Rules.apply, "
-            "closure of D, play-outs with null moves).", "DESIGN.md section 6 C02", ""),
+    "C02": ("proof", "Coq refinement proof makemove = Rules.apply for every move kind incl. castling in both geometries (stage decomposition, bit-by-bit board semantics, all nine state components) and for the null move; the executable premise and closure of D by differential model/implementation/Rules.apply on every legal move of sampled positions",
+            "PARTIAL proof. Proved: (a) a null move passes the turn, clears the ep target, keeps absolute placement and rights; (b) for every "
+            "move -- quiet, capture, double push, en passant, promotion with/without capture (test premises_b) and castling written "
+            "king-takes-rook in standard and Chess960 geometry (test cpremises_b) -- that passes refines_b = premises_b || cpremises_b, abs_state (makemove p m) = Rules.apply (abs_state p) (dec p m): placement, turn, four castling rights, ep target, "
+            "half-move clock, full-move number; (c) makemove is the composition of the stages the proof works on. refines_b is evaluated "
+            "(true) on every legal move the run generates. Open: that every legal move of D passes it, closure of D -- decided by the correspondence "
+            "run (all fields, both key variants, Rules.apply, play-outs with null moves).", "DESIGN.md section 6 C02", ""),
     "C03": ("proof", "Coq lemmas on the root (answer = last pv, best move of the root loop is legal, ordering a permutation) + searches over limits/histories/tables checked against the rules",
             "PARTIAL proof. Proved on the model: the answer is the move of the last reported iteration; when the root loop ends with a best move it is a "
             "legal root move; the root is never null-move pruned. Not proved: that a best move always exists when legal moves exist (value bounds). "
